@@ -53,128 +53,10 @@ total!(total_bds05_commb, d_bds05, |a| { let tc = tc_of(a); tc >= 9 && tc < 22 &
 // always rejected with "Too much data"; the witness is therefore the error branch)
 total!(total_bds65_commb, d_bds65_commb, |a| tc_of(a) == 31 && (a[0] & 7) < 2, |r| r.is_err());
 
-// ---------------------------------------------------------------- (e) rendering of accepted payloads
-macro_rules! render {
-    ($name:ident, $dec:ident, $pre:expr) => {
-        harness! {
-            #[kani::unwind(17)]
-            #[kani::stub(alloc::fmt::format, crate::stubs::fmt_stub)]
-            #[kani::stub(libm::atan2, crate::stubs::k::atan2_stub)]
-            #[kani::stub(libm::hypot, crate::stubs::k::hypot_stub)]
-            #[kani::stub(libm::round, crate::stubs::k::round_stub)]
-            /// Display of every accepted payload does not panic (digit generation of floats is
-            /// outside: inner format! calls are stubbed)
-            fn $name(s) {
-                let a: [u8; 7] = s.bytes();
-                let pre: fn(&[u8; 7]) -> bool = $pre;
-                vassume!(pre(&a));
-                if let Ok(m) = $dec(&a) {
-                    let mut w = NullSink;
-                    let r = write!(w, "{}", m);
-                    vcover!(r.is_ok());
-                    vassert!(r.is_ok(), "rendering returns Ok");
-                    core::mem::forget(m);
-                }
-            }
-        }
-    };
-}
-render!(render_bds05, d_bds05, |a| bds05_ok_tc(tc_of(a)));
-render!(render_bds06, d_bds06, |a| bds06_ok_tc(tc_of(a)));
-render!(render_bds08, d_bds08, |a| bds08_ok_tc(tc_of(a)));
-render!(render_bds09, d_bds09, |_| true);
-render!(render_bds61, d_bds61, |_| true);
-render!(render_bds62, d_bds62, |_| true);
-render!(render_bds65, d_bds65, |_| true);
 
-// ---------------------------------------------------------------- (b) whole frames through Message::try_from
-// The discriminating bytes are concrete (CBMC executes only the selected arm), every other bit is symbolic.
-// Each of these costs ~50 min of symbolic execution (moves of the 1.5 kB DF value): thorough tier.
 use crate::refs::syndrome;
 use rs1090::decode::DF;
-
 fn expect_len(b0: u8) -> usize { if (b0 >> 3) & 0x10 != 0 { 14 } else { 7 } }
-
-macro_rules! frame_short {
-    ($name:ident, $b0:expr) => {
-        harness! {
-            #[kani::unwind(17)]
-            #[kani::stub(alloc::fmt::format, crate::stubs::fmt_stub)]
-            /// every 56-bit frame with this first byte: a message or an error, no panic; the crc
-            /// field is the reference remainder
-            fn $name(s) {
-                let mut f: [u8; 7] = s.bytes();
-                f[0] = $b0;
-                let r = Message::try_from(&f[..]);
-                vcover!(r.is_ok());
-                if let Ok(m) = &r {
-                    vassert!(m.crc == syndrome(&f, 7), "crc field is the remainder of the frame");
-                    if let DF::AllCallReply { icao, .. } = &m.df {
-                        vassert!(icao.0 == (f[1] as u32) << 16 | (f[2] as u32) << 8 | f[3] as u32, "AA is bits 9..32 of the frame");
-                    }
-                }
-                core::mem::forget(r);
-            }
-        }
-    };
-}
-frame_short!(frame_df0, 0x02);
-frame_short!(frame_df4, 0x20);
-frame_short!(frame_df5, 0x28);
-frame_short!(frame_df11, 0x5d);
-frame_short!(frame_df11_ca0, 0x58);
-
-macro_rules! frame_long {
-    ($name:ident, $b0:expr, $b4:expr, $fixcrc:expr) => {
-        harness! {
-            #[kani::unwind(17)]
-            #[kani::stub(alloc::fmt::format, crate::stubs::fmt_stub)]
-            #[kani::stub(libm::atan2, crate::stubs::k::atan2_stub)]
-            #[kani::stub(libm::hypot, crate::stubs::k::hypot_stub)]
-            /// every 112-bit frame with this first byte (and, for DF17/18, this type-code byte; the
-            /// parity of DF17 frames is made valid by construction so that the accepting branch is
-            /// reachable): a message or an error, no panic
-            fn $name(s) {
-                let mut f: [u8; 14] = s.bytes();
-                f[0] = $b0;
-                let b4: Option<u8> = $b4;
-                if let Some(v) = b4 { f[4] = v; }
-                if $fixcrc {
-                    f[11] = 0; f[12] = 0; f[13] = 0;
-                    let p = syndrome(&f, 14);
-                    f[11] = (p >> 16) as u8; f[12] = (p >> 8) as u8; f[13] = p as u8;
-                }
-                let r = Message::try_from(&f[..]);
-                vcover!(r.is_ok());
-                if let Ok(m) = &r {
-                    vassert!(m.crc == syndrome(&f, 14), "crc field is the remainder of the frame");
-                    match &m.df {
-                        DF::ExtendedSquitterADSB(a) => vassert!(a.icao24.0 == (f[1] as u32) << 16 | (f[2] as u32) << 8 | f[3] as u32, "AA is bits 9..32 of the frame"),
-                        DF::ExtendedSquitterTisB { cf, .. } => vassert!(cf.aa.0 == (f[1] as u32) << 16 | (f[2] as u32) << 8 | f[3] as u32, "AA is bits 9..32 of the frame"),
-                        _ => {}
-                    }
-                }
-                core::mem::forget(r);
-            }
-        }
-    };
-}
-frame_long!(frame_df16, 0x80, None, false);
-frame_long!(frame_df19, 0x98, None, false);
-frame_long!(frame_df24, 0xc0, None, false);
-frame_long!(frame_df17_tc00, 0x8d, Some(0x00), true);
-frame_long!(frame_df17_tc04, 0x8d, Some(0x20), true);
-frame_long!(frame_df17_tc07, 0x8d, Some(0x38), true);
-frame_long!(frame_df17_tc11, 0x8d, Some(0x58), true);
-frame_long!(frame_df17_tc19_st1, 0x8d, Some(0x99), true);
-frame_long!(frame_df17_tc19_st0, 0x8d, Some(0x98), true);
-frame_long!(frame_df17_tc28, 0x8d, Some(0xe1), true);
-frame_long!(frame_df17_tc29, 0x8d, Some(0xe8), true);
-frame_long!(frame_df17_tc31_v0, 0x8d, Some(0xf8), true);
-frame_long!(frame_df17_tc31_r2, 0x8d, Some(0xfa), true);
-frame_long!(frame_df17_tc23, 0x8d, Some(0xb8), true);
-frame_long!(frame_df18_tc11, 0x92, Some(0x58), false);
-frame_long!(frame_df18_tc19, 0x90, Some(0x99), false);
 
 // ---------------------------------------------------------------- (c) length discipline
 // The first byte is concrete per harness and the length a concrete loop variable: with a symbolic
@@ -203,168 +85,16 @@ macro_rules! len_cut {
         }
     };
 }
-len_cut!(len_cut_df00, 0x02);
-len_cut!(len_cut_df01, 0x08);
 len_cut!(len_cut_df04, 0x20);
-len_cut!(len_cut_df05, 0x28);
 len_cut!(len_cut_df11, 0x5d);
-len_cut!(len_cut_df14, 0x77);
-len_cut!(len_cut_df16, 0x80);
 len_cut!(len_cut_df17, 0x8d);
-len_cut!(len_cut_df18, 0x90);
-len_cut!(len_cut_df19, 0x98);
 len_cut!(len_cut_df20, 0xa0);
-len_cut!(len_cut_df21, 0xa8);
-len_cut!(len_cut_df24, 0xc0);
-len_cut!(len_cut_df31, 0xff);
 
-harness! {
-    #[kani::unwind(34)]
-    #[kani::stub(alloc::fmt::format, crate::stubs::fmt_stub)]
-    /// DF11 with any content and any length 7..=32: accepted only at exactly 7 bytes
-    fn len_df11(s) {
-        let mut buf: [u8; 32] = s.bytes();
-        buf[0] = 0x5d;
-        let len = s.below(33) as usize;
-        vassume!(len >= 7);
-        let r = Message::try_from(&buf[..len]);
-        vcover!(r.is_ok());
-        vcover!(len == 32);
-        if r.is_ok() { vassert!(len == 7, "accepted only at the length the downlink format prescribes"); }
-        core::mem::forget(r);
-    }
-}
-
-harness! {
-    #[kani::unwind(17)]
-    #[kani::stub(alloc::fmt::format, crate::stubs::fmt_stub)]
-    /// decoding the same bytes twice gives equal results (DF11 instance)
-    fn determinism_df11(s) {
-        let mut f: [u8; 7] = s.bytes();
-        f[0] = 0x5d;
-        let r1 = Message::try_from(&f[..]);
-        let r2 = Message::try_from(&f[..]);
-        vcover!(r1.is_ok());
-        match (&r1, &r2) {
-            (Ok(a), Ok(b)) => vassert!(a == b, "same bytes, same message"),
-            (Err(_), Err(_)) => {}
-            _ => vassert!(false, "same bytes, same verdict"),
-        }
-        core::mem::forget((r1, r2));
-    }
-}
-
-
-// ---------------------------------------------------------------- (f) Comm-B selector glue (DF20 / DF21)
-// Whole DF20/DF21 frames through Message::try_from are out of reach (DESIGN 7.2).  The selector readers
-// of commb.rs are called directly on EVERY 56-bit MB field; the register hypotheses other than BDS 0,5
-// are contract stubs (selstubs.rs: reject, or accept with a sample value, nondeterministically, recording
-// the choice), each register's own reader being decided on all 2^56 payloads by total_bdsNN above.
-macro_rules! selector_checks {
-    ($sel:ident, $a:ident, $zero:ident) => {
-        vassert!($sel.is_empty == $zero, "is_empty exactly for the all-zero MB field");
-        if $zero {
-            vassert!($sel.bds05.is_none() && $sel.bds10.is_none() && $sel.bds17.is_none() && $sel.bds18.is_none() && $sel.bds19.is_none()
-                     && $sel.bds20.is_none() && $sel.bds21.is_none() && $sel.bds30.is_none() && $sel.bds40.is_none() && $sel.bds44.is_none()
-                     && $sel.bds45.is_none() && $sel.bds50.is_none() && $sel.bds60.is_none() && $sel.bds65.is_none(), "an empty MB field carries no register");
-        }
-        if $sel.bds65.is_some() { vassert!(($a[0] >> 3) == 31 && ($a[0] & 7) < 2, "BDS 6,5 only for type code 31, category 0 or 1"); }
-        #[cfg(kani)]
-        {
-            let acc = unsafe { crate::selstubs::ACCEPTED };
-            let called = unsafe { crate::selstubs::CALLED };
-            if !$zero {
-                vassert!($sel.bds10.is_some() == ((acc >> 1) & 1 == 1) && $sel.bds17.is_some() == ((acc >> 2) & 1 == 1)
-                         && $sel.bds18.is_some() == ((acc >> 3) & 1 == 1) && $sel.bds19.is_some() == ((acc >> 4) & 1 == 1)
-                         && $sel.bds20.is_some() == ((acc >> 5) & 1 == 1) && $sel.bds21.is_some() == ((acc >> 6) & 1 == 1)
-                         && $sel.bds30.is_some() == ((acc >> 7) & 1 == 1) && $sel.bds40.is_some() == ((acc >> 8) & 1 == 1)
-                         && $sel.bds44.is_some() == ((acc >> 9) & 1 == 1) && $sel.bds45.is_some() == ((acc >> 10) & 1 == 1)
-                         && $sel.bds50.is_some() == ((acc >> 11) & 1 == 1) && $sel.bds60.is_some() == ((acc >> 12) & 1 == 1)
-                         && $sel.bds65.is_some() == ((acc >> 13) & 1 == 1), "the selector stores exactly the hypotheses that accepted the payload");
-                vassert!(called & 0x1ffe == 0x1ffe, "every register hypothesis is offered a non-empty payload");
-            } else {
-                vassert!(called == 0, "no hypothesis is tried on an empty MB field");
-            }
-            if (called >> 13) & 1 == 1 { vassert!(($a[0] >> 3) == 31 && ($a[0] & 7) < 2, "BDS 6,5 is tried only for type code 31, category 0 or 1"); }
-        }
-    };
-}
-with_selector_stubs! {
-    /// DF20 selector on EVERY 56-bit MB field and every header altitude: never fails, never panics
-    /// (BDS 0,5 is the real reader), and stores exactly the accepted hypotheses
-    fn selector_df20(s) {
-        let a: [u8; 7] = s.bytes();
-        let ac = s.u16();
-        #[cfg(kani)]
-        unsafe { crate::selstubs::ACCEPTED = 0; crate::selstubs::CALLED = 0; }
-        let mut cur = deku::no_std_io::Cursor::new(&a[..]);
-        let mut reader = Reader::new(&mut cur);
-        let r = rs1090::decode::commb::DF20DataSelector::from_reader_with_ctx(&mut reader, rs1090::decode::AC13Field(ac));
-        vcover!(matches!(&r, Ok(x) if x.bds40.is_some() && x.bds50.is_some() && x.bds05.is_some()));
-        vcover!(matches!(&r, Ok(x) if x.is_empty));
-        vassert!(r.is_ok(), "the selector never fails on 56 bits");
-        if let Ok(sel) = &r {
-            let zero = a[0] == 0 && a[1] == 0 && a[2] == 0 && a[3] == 0 && a[4] == 0 && a[5] == 0 && a[6] == 0;
-            selector_checks!(sel, a, zero);
-        }
-        core::mem::forget(r);
-    }
-}
-with_selector_stubs! {
-    /// DF21 selector on EVERY 56-bit MB field: same, and it never labels a payload as BDS 0,5
-    fn selector_df21(s) {
-        let a: [u8; 7] = s.bytes();
-        #[cfg(kani)]
-        unsafe { crate::selstubs::ACCEPTED = 0; crate::selstubs::CALLED = 0; }
-        let mut cur = deku::no_std_io::Cursor::new(&a[..]);
-        let mut reader = Reader::new(&mut cur);
-        let r = rs1090::decode::commb::DF21DataSelector::from_reader_with_ctx(&mut reader, ());
-        vcover!(matches!(&r, Ok(x) if x.bds40.is_some() && x.bds50.is_some()));
-        vcover!(matches!(&r, Ok(x) if x.is_empty));
-        vassert!(r.is_ok(), "the selector never fails on 56 bits");
-        if let Ok(sel) = &r {
-            let zero = a[0] == 0 && a[1] == 0 && a[2] == 0 && a[3] == 0 && a[4] == 0 && a[5] == 0 && a[6] == 0;
-            vassert!(sel.bds05.is_none(), "DF21 never labels a payload as an airborne position");
-            selector_checks!(sel, a, zero);
-        }
-        core::mem::forget(r);
-    }
-}
-
-// ---------------------------------------------------------------- frames LONGER than prescribed
-// The "Too much data" test sits BEHIND the complete parse, and a parse with symbolic frame bits costs ~50 min of symbolic
-// execution.  Here the frame itself is a CONCRETE valid sample (so the parse is constant-folded) and what is symbolic is
-// everything appended to it: every content of the trailing bytes, at three concrete total lengths.
-macro_rules! too_long {
-    ($name:ident, $n:expr, [$($b:expr),*], [$($len:expr),*]) => {
-        harness! {
-            #[kani::unwind(34)]
-            #[kani::stub(alloc::fmt::format, crate::stubs::fmt_stub)]
-            #[kani::stub(libm::atan2, crate::stubs::k::atan2_stub)]
-            #[kani::stub(libm::hypot, crate::stubs::k::hypot_stub)]
-            /// a valid frame of the length its downlink format prescribes is accepted; the same frame followed by ANY
-            /// extra bytes is rejected
-            fn $name(s) {
-                let mut buf: [u8; 32] = s.bytes();
-                let head: [u8; $n] = [$($b),*];
-                let mut i = 0;
-                while i < $n { buf[i] = head[i]; i += 1; }
-                let r0 = Message::try_from(&buf[..$n]);
-                vcover!(r0.is_ok());
-                vassert!(r0.is_ok(), "the sample frame is accepted at its own length");
-                core::mem::forget(r0);
-                $(
-                    let r = Message::try_from(&buf[..$len]);
-                    vassert!(r.is_err(), "accepted only at the length the downlink format prescribes");
-                    core::mem::forget(r);
-                )*
-            }
-        }
-    };
-}
-too_long!(too_long_df11, 7, [0x5d, 0x3c, 0x66, 0x14, 0xc7, 0xb8, 0xa2], [8, 14, 32]);
-too_long!(too_long_df17, 14, [0x8d, 0x40, 0x6b, 0x90, 0x20, 0x15, 0xa6, 0x78, 0xd4, 0xd2, 0x20, 0xaa, 0x4b, 0xda], [15, 32]);
-too_long!(too_long_df4, 7, [0x20, 0x00, 0x17, 0x18, 0xf1, 0xa5, 0x7b], [8, 14]);
+// everything below the payload / header-field totality harnesses (rendering, whole frames, length discipline, selector glue,
+// over-long frames) is compiled only into the thorough build: Kani generates code for EVERY harness of the crate, and the
+// quick command has 900 s for build + run
+#[cfg(feature = "c01full")]
+include!("c01_full.rs");
 
 // ---------------------------------------------------------------- header field readers with hand-written arithmetic
 // (the 13-bit altitude and identity fields of DF 0/4/5/16/20/21 headers): every 16-bit content of the two bytes they are
@@ -390,11 +120,5 @@ harness! {
     }
 }
 
-registry!(total_ac13, total_id13, too_long_df11, too_long_df17, too_long_df4, selector_df20, selector_df21, frame_df0, frame_df4, frame_df5, frame_df11, frame_df11_ca0, frame_df16, frame_df19, frame_df24,
-          frame_df17_tc00, frame_df17_tc04, frame_df17_tc07, frame_df17_tc11, frame_df17_tc19_st1, frame_df17_tc19_st0,
-          frame_df17_tc28, frame_df17_tc29, frame_df17_tc31_v0, frame_df17_tc31_r2, frame_df17_tc23, frame_df18_tc11, frame_df18_tc19,
-          len_cut_df00, len_cut_df01, len_cut_df04, len_cut_df05, len_cut_df11, len_cut_df14, len_cut_df16, len_cut_df17, len_cut_df18, len_cut_df19, len_cut_df20, len_cut_df21, len_cut_df24, len_cut_df31, len_df11, determinism_df11,
-          total_bds05, total_bds06, total_bds08, total_bds09, total_bds61, total_bds62, total_bds65,
-          total_bds10, total_bds17, total_bds18, total_bds19, total_bds20, total_bds21, total_bds30,
-          total_bds40, total_bds44, total_bds45, total_bds50, total_bds60, total_bds05_commb, total_bds65_commb,
-          render_bds05, render_bds06, render_bds08, render_bds09, render_bds61, render_bds62, render_bds65);
+registry!(len_cut_df04, len_cut_df11, len_cut_df17, len_cut_df20, total_ac13, total_id13, total_bds05, total_bds06, total_bds08, total_bds09, total_bds61, total_bds62, total_bds65, total_bds10, total_bds17, total_bds18, total_bds19, total_bds20, total_bds21, total_bds30, total_bds40, total_bds44, total_bds45, total_bds50, total_bds60, total_bds05_commb, total_bds65_commb);
+
